@@ -7,53 +7,58 @@ import SqLemmas.CopyLemmas
 namespace Sq.Inv
 
 /-- every closure inside the value satisfies `Pc`, every builtin-function value `Pb`, every opaque object `Pq` -/
-inductive NPg (Pc : List Op → Op → Nat → Prop) (Pb : String → Prop) (Pq : String → Prop) : Val → Prop
-  | none : NPg Pc Pb Pq .none
-  | bool {x} : NPg Pc Pb Pq (.bool x)
-  | dec {d c} : NPg Pc Pb Pq (.dec d c)
-  | int {i} : NPg Pc Pb Pq (.int i)
-  | str {s} : NPg Pc Pb Pq (.str s)
-  | slice {x y z} : NPg Pc Pb Pq (.slice x y z)
-  | ref {a} : NPg Pc Pb Pq (.ref a)
-  | builtin {n} : Pb n → NPg Pc Pb Pq (.builtin n)
-  | closure {ps body vm} : Pc ps body vm → NPg Pc Pb Pq (.closure ps body vm)
-  | host {i} : NPg Pc Pb Pq (.host i)
-  | opaque {s} : Pq s → NPg Pc Pb Pq (.opaque s)
-  | tuple {vs} : (∀ v, v ∈ vs → NPg Pc Pb Pq v) → NPg Pc Pb Pq (.tuple vs)
+inductive NPg (Pc : List Op → Op → Nat → Prop) (Pb : String → Prop) (Pq : String → Prop) (Pr : Nat → Prop) : Val → Prop
+  | none : NPg Pc Pb Pq Pr .none
+  | bool {x} : NPg Pc Pb Pq Pr (.bool x)
+  | dec {d c} : NPg Pc Pb Pq Pr (.dec d c)
+  | int {i} : NPg Pc Pb Pq Pr (.int i)
+  | str {s} : NPg Pc Pb Pq Pr (.str s)
+  | slice {x y z} : NPg Pc Pb Pq Pr (.slice x y z)
+  | ref {a} : Pr a → NPg Pc Pb Pq Pr (.ref a)
+  | builtin {n} : Pb n → NPg Pc Pb Pq Pr (.builtin n)
+  | closure {ps body vm} : Pc ps body vm → NPg Pc Pb Pq Pr (.closure ps body vm)
+  | host {i} : NPg Pc Pb Pq Pr (.host i)
+  | opaque {s} : Pq s → NPg Pc Pb Pq Pr (.opaque s)
+  | tuple {vs} : (∀ v, v ∈ vs → NPg Pc Pb Pq Pr v) → NPg Pc Pb Pq Pr (.tuple vs)
 
-def ObjNPg (Pc : List Op → Op → Nat → Prop) (Pb : String → Prop) (Pq : String → Prop) : HObj → Prop
-  | .list xs => ∀ v, v ∈ xs → NPg Pc Pb Pq v
-  | .dict kvs => ∀ kv, kv ∈ kvs → NPg Pc Pb Pq kv.1 ∧ NPg Pc Pb Pq kv.2
+def ObjNPg (Pc : List Op → Op → Nat → Prop) (Pb : String → Prop) (Pq : String → Prop) (Pr : Nat → Prop) : HObj → Prop
+  | .list xs => ∀ v, v ∈ xs → NPg Pc Pb Pq Pr v
+  | .dict kvs => ∀ kv, kv ∈ kvs → NPg Pc Pb Pq Pr kv.1 ∧ NPg Pc Pb Pq Pr kv.2
 
-def HeapNPg (Pc : List Op → Op → Nat → Prop) (Pb : String → Prop) (Pq : String → Prop) (h : Heap) : Prop :=
-  ∀ a o, h.get? a = some o → ObjNPg Pc Pb Pq o
+def HeapNPg (Pc : List Op → Op → Nat → Prop) (Pb : String → Prop) (Pq : String → Prop) (Pr : Nat → Prop) (h : Heap) : Prop :=
+  (∀ a o, h.get? a = some o → ObjNPg Pc Pb Pq Pr o) ∧ ∀ a, h.size ≤ a → Pr a
 
-def AllNPg (Pc : List Op → Op → Nat → Prop) (Pb : String → Prop) (Pq : String → Prop) (vs : List Val) : Prop :=
-  ∀ v, v ∈ vs → NPg Pc Pb Pq v
+def AllNPg (Pc : List Op → Op → Nat → Prop) (Pb : String → Prop) (Pq : String → Prop) (Pr : Nat → Prop) (vs : List Val) : Prop :=
+  ∀ v, v ∈ vs → NPg Pc Pb Pq Pr v
 
-variable {Pc : List Op → Op → Nat → Prop} {Pb : String → Prop} {Pq : String → Prop}
-local notation "NP" => NPg Pc Pb Pq
-local notation "ObjNP" => ObjNPg Pc Pb Pq
-local notation "HeapNP" => HeapNPg Pc Pb Pq
-local notation "AllNP" => AllNPg Pc Pb Pq
+variable {Pc : List Op → Op → Nat → Prop} {Pb : String → Prop} {Pq : String → Prop} {Pr : Nat → Prop}
+local notation "NP" => NPg Pc Pb Pq Pr
+local notation "ObjNP" => ObjNPg Pc Pb Pq Pr
+local notation "HeapNP" => HeapNPg Pc Pb Pq Pr
+local notation "AllNP" => AllNPg Pc Pb Pq Pr
 
 theorem heapNP_push {h : Heap} (hh : HeapNP h) {o : HObj} (ho : ObjNP o) : HeapNP (h.push o) := by
+  refine ⟨?_, fun a ha => hh.2 a (by simp at ha; omega)⟩
   intro a ob hg
   rw [get?_push] at hg
   split at hg
   · injection hg with hg; subst hg; exact ho
-  · exact hh a ob hg
+  · exact hh.1 a ob hg
 
 theorem heapNP_set {h : Heap} (hh : HeapNP h) (a : Nat) {o : HObj} (ho : ObjNP o) : HeapNP (h.set a o) := by
+  refine ⟨?_, fun b hb => hh.2 b (by rw [size_set] at hb; exact hb)⟩
   intro b ob hg
   rw [get?_set] at hg
   split at hg
   · injection hg with hg; subst hg; exact ho
-  · exact hh b ob hg
+  · exact hh.1 b ob hg
+
+/-- the next address to be allocated may be mentioned -/
+theorem heapNP_fresh {h : Heap} (hh : HeapNP h) : Pr h.size := hh.2 _ (Nat.le_refl _)
 
 theorem allocList_np {s : BState} (hh : HeapNP s.heap) {xs : List Val} (hx : AllNP xs) :
     NP (allocList s xs).1 ∧ HeapNP (allocList s xs).2.heap := by
   simp only [allocList, Heap.alloc]
-  exact ⟨.ref, heapNP_push hh hx⟩
+  exact ⟨.ref (heapNP_fresh hh), heapNP_push hh hx⟩
 
 end Sq.Inv
